@@ -89,12 +89,12 @@ def template_scenario(prog, template, seq):
 
 
 def run(prog, chk):
-    utf8_table(prog, chk)
-    integer_table(prog, chk)
-    imprint_table(prog, chk)
-    legacy_id_table(prog, chk)
-    signature_structure_table(prog, chk)
-    _run(prog, chk)
+    chk.defer(utf8_table, prog, chk)
+    chk.defer(integer_table, prog, chk)
+    chk.defer(imprint_table, prog, chk)
+    chk.defer(legacy_id_table, prog, chk)
+    chk.defer(signature_structure_table, prog, chk)
+    chk.defer(_run, prog, chk)
 
 
 def _run(prog, chk):
